@@ -158,6 +158,9 @@ def crawl(tree, M, src, out):
                 continue
             target = gen_site.resolve(f, url)
             if target is None:
+                sch = urlsplit(url).scheme
+                if tag in ("a", "link", "img") and sch not in ("http", "https", "mailto", "data", "ftp") and not text.strip()[:1] in ("L", "I"):
+                    out_v.append(("C14:generated-link-reads-as-external-url", "page %s: link %r has scheme %r" % (f, url, sch)))
                 continue
             is_dir_like = target.endswith("/")
             if target not in files:
@@ -203,6 +206,11 @@ def crawl(tree, M, src, out):
 
 def gen_oracle_case(rng, url_names):
     d = gen_site.gen_tree(rng, rng.randint(0, 3), gen_site.SAFE_NAMES, url_names=url_names, servings_pool=(None, 1, 2))
+    if url_names and rng.random() < 0.5:
+        # a directory next to files whose names extend it with a URL-significant character
+        d["subdirs"].append(dict(name="bread", readme=None, recipes=[dict(file="loaf.md", title="Loaf", servings=2, links=[])], subdirs=[], assets=[]))
+        d["recipes"].append(dict(file="bread#2.md", title="Second bread", servings=2, links=[]))
+        d["recipes"].append(dict(file="bread?x.md", title="Third bread", servings=None, links=[]))
     gen_links(rng, d)
     return d, rng.randint(2, 4)
 
@@ -212,8 +220,9 @@ def check_site(d, M):
     try:
         if err is not None:
             name = type(err).__name__
-            if name in ("MaxServingsLowerThanLargestRecipeError", "LinkToNonExistentFileError", "LinkToExternalFileError"):
+            if name == "MaxServingsLowerThanLargestRecipeError":
                 return []
+            # every authored link of the generated trees points at an existing recipe, directory, readme or file inside the tree
             return [("C14:generation-raises:%s" % name, str(err)[:200])]
         return crawl(d, M, src, out)
     finally:
